@@ -91,5 +91,6 @@ def reduce_violation(v, **kw):
                                             check_log=p.get("check_log", True),
                                             check_stdout=p.get("check_stdout", True), **kw)
         if status == "fail":
-            v = dict(v, payload=dict(p, src=small), diffs=failures[0][1])
+            v = dict(v, payload=dict(p, src=small, src_before_reduction=p["src"]), diffs=failures[0][1],
+                     diffs_before_reduction=v["diffs"])
     return v
